@@ -13,7 +13,25 @@ def run(tier):
         im.model_and_replay(c, "c10", emit_cfgs=[(2, 2, 4), (3, 2, 3)], check_cfgs=[(3, 2, 4), (2, 3, 4)])
         lines = im.drive_and_validate(c, "c10", ntr=500, steps=400)
         im.selftest(c, "c10", lines)
+    cyclic(c)
     return c.finish(rule="one behaviour per edge of the IterMapImpl state graph (linked list + sentinel + ref counts + pool, "
                          "refinement of OrderedMap.tla checked in the same run) replayed on iterable.Map[string,int] comparing "
                          "every Add/Remove/Get/Len/First/Iterator/HasNext/Next/Close reply and recovering panics; plus recorded "
                          "random histories (6 keys, 8 iterators, re-added keys) validated by TLC against OrderedMap!Apply")
+
+
+def cyclic(c):
+    """Values that reach themselves, in a process of its own (a runaway recursion over a value ends the process)."""
+    trace = c.path("trace", "itermap-cyclic.ndjson")
+    if c.run_vh_crashcheck(["drive", "itermap-cyclic", "-out", trace],
+                           "itermap: a map holding values that reach themselves took the process down (runaway recursion over a value)",
+                           timeout=120) is None:
+        return
+    cfg = c.write_cfg("itermap", "OrderedMapTrace_cyc", constants={"Iters": [1], "CheckReplies": True, "CheckRetention": False},
+                      postcondition="Accepted")
+    ok, at, _ = c.validate_trace("itermap", "OrderedMapTrace", cfg, trace, timeout=300, label="OrderedMapTrace-cyclic")
+    if ok:
+        c.traces_validated += 1
+    else:
+        c.report_failure("itermap: a map holding values that reach themselves: a call panicked or a reply differed",
+                         {"rejected_at_line": at, "event": open(trace).read().splitlines()[at - 1][:500]})
